@@ -583,6 +583,15 @@ static void step_common(int kind)
 		quiet_enter();
 	}
 	wake_sleepers();
+	if (G.ntimed_frozen && G.solo_tid < 0) {
+		int i;
+		for (i = 0; i < G.nthr; i++)
+			if (G.thr[i].freeze_until && G.steps >= G.thr[i].freeze_until) {
+				G.thr[i].freeze_until = 0;
+				G.thr[i].frozen = 0;
+				G.ntimed_frozen--;
+			}
+	}
 	/*
 	 * A thread that never blocks (e.g. a polling or spinning helper) must not
 	 * stretch every sleep to millions of steps: no deadline in liburcu reads a
@@ -694,7 +703,7 @@ static int decide(struct sthr *me, int kind)
 			if (d != NONE_CHOICE) { c = d; break; }
 		}
 		if (me && eligible(me) && kind != Y_RELAX && kind != Y_PAUSE &&
-		    sched_below(256) < G.stick) {
+		    sched_below(256) < (!G.sync_bias ? G.stick : kind == Y_SYS ? G.stick / 3 : 256 - (256 - G.stick) / 6)) {
 			c = me->id;
 		} else {
 			int o = random_other(me);
@@ -820,6 +829,10 @@ static void nothing_runnable(void)
 	for (i = 0; i < G.nthr; i++)
 		if (G.thr[i].frozen && G.thr[i].state == T_RUNNABLE) {
 			G.thr[i].frozen = 0;
+			if (G.thr[i].freeze_until) {
+				G.thr[i].freeze_until = 0;
+				G.ntimed_frozen--;
+			}
 			thawed = 1;
 		}
 	if (thawed) {
@@ -842,6 +855,22 @@ void rt_sched_point(int kind)
 	me->yields++;
 	if (kind == Y_RELAX)
 		me->relaxes++;
+	if (me->stall_ord && (me->stall_mask & (1u << kind)) && --me->stall_ord == 0 &&
+	    !G.quiet && G.solo_tid < 0 && !me->frozen && me->sigdepth == 0) {
+		int i;
+		/* somebody else must exist; if they are all blocked the scheduler thaws us (nothing_runnable) */
+		for (i = 1; i < G.nthr; i++)
+			if (&G.thr[i] != me && G.thr[i].state != T_EXITED)
+				break;
+		if (i < G.nthr) {
+			rt_sb_drain_all(me);	/* a descheduled thread's stores become visible */
+			me->frozen = 1;
+			me->freeze_until = G.steps + me->stall_len;
+			G.ntimed_frozen++;
+			usim_probe("sched.planned_stall_inside_operation");
+			rt_trace("[%6lu T%d] planned stall: frozen for %u steps at step %lu\n", (unsigned long) G.seq, me->id, me->stall_len, (unsigned long) G.steps);
+		}
+	}
 	for (;;) {
 		step_common(kind);
 		c = decide(me, kind);
@@ -957,7 +986,12 @@ static void quiet_enter(void)
 	G.slice_left = 0;
 	rt_sb_drain_everyone();
 	for (i = 0; i < G.nthr; i++)
+	{
 		G.thr[i].frozen = 0;
+		G.thr[i].freeze_until = 0;
+		G.thr[i].stall_ord = 0;
+	}
+	G.ntimed_frozen = 0;
 	if (G.stall_victim >= 0)
 		G.stall_victim = -2;
 	usim_probe("quiet.entered");
@@ -1018,6 +1052,22 @@ void usim_yield(void)
 {
 	if (cur && G.active)
 		rt_sched_point(Y_SYS);
+}
+
+void usim_stall_plan(int ordinal, uint32_t steps)
+{
+	struct sthr *me = cur;
+	if (!me || !G.active || ordinal <= 0)
+		return;
+	me->stall_mask = (1u << Y_ATOMIC_LD) | (1u << Y_ATOMIC_ST) | (1u << Y_RMW) | (1u << Y_FENCE);
+	me->stall_ord = ordinal;
+	me->stall_len = steps;
+}
+
+void usim_stall_cancel(void)
+{
+	if (cur)
+		cur->stall_ord = 0;
 }
 
 void usim_pause(void)
@@ -1654,6 +1704,7 @@ void rt_begin(uint64_t rs, int tier)
 		static const uint32_t sticks[] = { 128, 205, 243 };
 		static const uint32_t plains[] = { 0, 0, 16, 64, 256 };
 		G.stick = (uint32_t) usim_param("stick", sticks[usim_below(US_SCHED, 3)]);
+		G.sync_bias = (int) usim_param("sync_bias", usim_below(US_SCHED, 3) == 0);
 		G.p_plain = (uint32_t) usim_param("p_plain", plains[usim_below(US_SCHED, 5)]);
 		G.p_drain = (uint32_t) usim_param("p_drain", 1u << usim_below(US_SCHED, 6));
 	}
